@@ -87,7 +87,8 @@ def run_plan(harness, items, nworkers=None, time_budget=60.0, max_paths=None, en
         return {"id": uid[0], "idx": idx, "harness": harness, "scenario": it["scenario"],
                 "params": it.get("params", {}), "bounds": it.get("bounds", {}),
                 "prefixes": prefixes, "budget": budget, "time_budget": tb,
-                "cov": len(prefixes) == 1 and prefixes[0] == []}
+                "cov": len(prefixes) == 1 and prefixes[0] in ([], [[], 0]),
+                "prio": min((p[1] if (len(p) == 2 and isinstance(p[0], list)) else 0) for p in prefixes)}
 
     for i in range(len(items)):
         queue.append(mk_unit(i, [[]], 6, 5.0))
@@ -112,6 +113,8 @@ def run_plan(harness, items, nworkers=None, time_budget=60.0, max_paths=None, en
                 all_workers.append(w)
                 sel.register(w.p.stdout, selectors.EVENT_READ, w)
                 idle.append(w)
+            if queue and idle:
+                queue.sort(key=lambda u: u["prio"])  # lower preemption counts first
             while queue and idle:
                 w = idle.pop()
                 w.send(queue.pop(0))
@@ -155,6 +158,7 @@ def run_plan(harness, items, nworkers=None, time_budget=60.0, max_paths=None, en
             if left:
                 # split leftovers: many small units while workers are idle
                 nidle = sum(1 for x in workers if x.busy is None) + (nworkers - len(workers))
+                left.sort(key=lambda p: p[1])
                 chunk = max(1, min(16, len(left) // max(1, nidle + 1)))
                 for i in range(0, len(left), chunk):
                     queue.append(mk_unit(unit["idx"], left[i:i + chunk], 60, 6.0))
@@ -177,6 +181,8 @@ def run_plan(harness, items, nworkers=None, time_budget=60.0, max_paths=None, en
     for u in queue:
         aggs[u["idx"]]["unexplored"] += len(u["prefixes"])
         aggs[u["idx"]]["exhaustive"] = False
+        lo = aggs[u["idx"]].setdefault("unexplored_min_preemptions", 99)
+        aggs[u["idx"]]["unexplored_min_preemptions"] = min(lo, u["prio"])
     for w in all_workers:
         try:
             if w.p.poll() is None:
